@@ -78,12 +78,13 @@ def reproducibility_observations(tier):
     d = os.path.join(core.scratch(), 'C17obs')
     files = {'main.go': OBS_MAIN, 'other.go': OBS_OTHER, 'sub/sub.go': OBS_SUB}
     files.update(OBS_GEN)
+    files.update({'a.inc.js': '$global.verifIncA = 1;\n', 'b.inc.js': '$global.verifIncB = 2;\n'})
     core.write_pkg(d, files)
     n = 8 if tier == 'quick' else 24
     for minify in (False, True):
         seen = {}
         for k in range(n):
-            files = ['main.go', 'other.go'] if k % 2 == 0 else ['other.go', 'main.go']
+            files = ['main.go', 'other.go', 'a.inc.js', 'b.inc.js'] if k % 2 == 0 else ['b.inc.js', 'other.go', 'a.inc.js', 'main.go']
             target = files if k % 3 else ['.']
             cmd = [core.gopherjs_bin(), 'build', '-o', 'out%d.js' % k] + (['-m'] if minify else []) + target
             env = dict(core.GOENV, GOMAXPROCS=str(1 + (k % 4)))
